@@ -12,6 +12,8 @@
 //	             root: receiver (the target is the receiver itself indexed / a field of it),
 //	             receiver-field (an index into something reached through fields of the receiver),
 //	             fresh-local (a local created in the same function by make / a composite literal),
+//	             out-param (`*p = ...` where p is a parameter of an unexported top-level function that is only ever
+//	             called, and every call in the package passes `&x` with x a plain non-package identifier there),
 //	             local, param, pkgvar, call, other
 //	go_stmts     `go` statements (function)
 //
@@ -267,6 +269,100 @@ func main() {
 		})
 		return ok
 	}
+	// out-parameters: unexported top-level functions, per parameter position, all of whose uses are calls passing `&ident`
+	// (ident not a package-level variable): a write `*p = v` in such a function stores into a variable of its caller
+	outParam := map[string]map[string]bool{} // pkg.func -> parameter name -> true
+	{
+		type fn struct {
+			params []string
+			calls  int
+			bad    map[int]bool
+			asVal  bool
+		}
+		fns := map[string]*fn{}
+		for _, ft := range files {
+			pkg := ft.f.Name.Name
+			for _, d := range ft.f.Decls {
+				if x, ok := d.(*ast.FuncDecl); ok && x.Recv == nil && x.Body != nil && !ast.IsExported(x.Name.Name) {
+					f := &fn{bad: map[int]bool{}}
+					for _, fl := range x.Type.Params.List {
+						if len(fl.Names) == 0 {
+							f.params = append(f.params, "_")
+						}
+						for _, n := range fl.Names {
+							f.params = append(f.params, n.Name)
+						}
+					}
+					fns[pkg+"."+x.Name.Name] = f
+				}
+			}
+		}
+		for _, ft := range files {
+			pkg := ft.f.Name.Name
+			ast.Inspect(ft.f, func(n ast.Node) bool {
+				switch x := n.(type) {
+				case *ast.CallExpr:
+					if id, ok := x.Fun.(*ast.Ident); ok {
+						if f := fns[pkg+"."+id.Name]; f != nil {
+							f.calls++
+							for i := range f.params {
+								okArg := false
+								if i < len(x.Args) {
+									if u, isU := x.Args[i].(*ast.UnaryExpr); isU && u.Op == token.AND {
+										if a, isI := u.X.(*ast.Ident); isI && !pkgVars[pkg+"."+a.Name] {
+											okArg = true
+										}
+									}
+								}
+								if !okArg {
+									f.bad[i] = true
+								}
+							}
+						}
+					}
+				}
+				return true
+			})
+		}
+		// used as a value? per package, identifiers named like the function that are not call heads nor the declaration
+		for _, ft := range files {
+			pkg := ft.f.Name.Name
+			heads := map[*ast.Ident]bool{}
+			decls := map[*ast.Ident]bool{}
+			ast.Inspect(ft.f, func(n ast.Node) bool {
+				switch x := n.(type) {
+				case *ast.CallExpr:
+					if id, ok := x.Fun.(*ast.Ident); ok {
+						heads[id] = true
+					}
+				case *ast.FuncDecl:
+					decls[x.Name] = true
+				}
+				return true
+			})
+			ast.Inspect(ft.f, func(n ast.Node) bool {
+				if id, ok := n.(*ast.Ident); ok && !heads[id] && !decls[id] {
+					if f := fns[pkg+"."+id.Name]; f != nil {
+						f.asVal = true // also hit by a local variable of the same name: errs on the strict side
+					}
+				}
+				return true
+			})
+		}
+		for key, f := range fns {
+			if f.calls == 0 || f.asVal {
+				continue
+			}
+			for i, pn := range f.params {
+				if !f.bad[i] && pn != "_" {
+					if outParam[key] == nil {
+						outParam[key] = map[string]bool{}
+					}
+					outParam[key][pn] = true
+				}
+			}
+		}
+	}
 	// scan one function body (or one package-level initialiser)
 	scan := func(pkg, file, fname string, recv, params *ast.FieldList, results *ast.FieldList, body ast.Node) {
 		local := map[string]bool{}
@@ -412,6 +508,14 @@ func main() {
 			case fresh[r]:
 				return "fresh-local"
 			case paramNames[r]:
+				if st, isStar := e.(*ast.StarExpr); isStar && recv == nil {
+					if id, isId := st.X.(*ast.Ident); isId {
+						bare := fname[strings.LastIndex(fname, ":")+1:]
+						if outParam[pkg+"."+bare][id.Name] {
+							return "out-param"
+						}
+					}
+				}
 				return "param"
 			case local[r]:
 				return "local"
